@@ -40,7 +40,12 @@ package ipc
 //@
 //@ func (*listener).GetOption
 //@   ensures n == mangos.OptionMaxRecvSize ==> isnil(result1) && result0 == iface(l.maxRcvSize)
-//@   ensures n != mangos.OptionMaxRecvSize ==> result1 == mangos.ErrBadOption && isnil(result0)
+//@   ensures n != mangos.OptionMaxRecvSize && n != OptionIpcSocketPermissions && n != OptionIpcSocketOwner && n != OptionIpcSocketGroup ==> result1 == mangos.ErrBadOption && isnil(result0)
+// round 12 (C19 "an accepted value is what Get then returns"): the three options SetOption accepts and
+// stores can be read back (the second clause used to say, from the code, that they cannot)
+//@   ensures n == OptionIpcSocketPermissions ==> isnil(result1) && result0 == iface(l.mode)
+//@   ensures n == OptionIpcSocketOwner ==> isnil(result1) && result0 == iface(l.owner)
+//@   ensures n == OptionIpcSocketGroup ==> isnil(result1) && result0 == iface(l.group)
 //@
 //@ func (*dialer).SetOption
 //@   ensures n != mangos.OptionMaxRecvSize ==> result == mangos.ErrBadOption
